@@ -155,9 +155,21 @@ def fmtOutcome (letter : String) (o : Outcome) : String :=
   let eff := joinOr "," (o.effects.map fun (e, c, l) => s!"{letter}.{e}.{c}.{l}")
   s!"{top} # {eff} # {joinOr " | " (o.resp.map fmtE2eOut)}"
 
+/-- the `FabricIndex` field the harness put into the payload: `0` none, `k > 0` the fabric index `k`,
+`z` the fabric index 0, `n` a null, `w` a 16-bit integer (not readable as `u8`) -/
+def parseFab (s : String) : Option FabField :=
+  if s = "z" then some (.idx 0) else if s = "n" ∨ s = "w" then some .unreadable else
+  match s.toNat? with
+  | some 0 => some .absent
+  | some k => some (.idx k)
+  | none => none
+
 def parseOcc (i : Nat) (s : String) : Option EventOcc :=
-  match (s.splitOn ".").mapM (·.toNat?) with
-  | some [e, c, v, f] => some { ep := e, cl := c, ev := v, fab := f, num := i + 1 }
+  match s.splitOn "." with
+  | [e, c, v, f] =>
+    match e.toNat?, c.toNat?, v.toNat?, parseFab f with
+    | some e, some c, some v, some f => some { ep := e, cl := c, ev := v, fab := f, num := i + 1 }
+    | _, _, _, _ => none
   | _ => none
 
 def parseTimed (s : String) : Option (Option (Nat × Nat)) :=
@@ -188,8 +200,10 @@ def e2eStep (st : St) (kind fab mode id cats treq flag paths emit out : String) 
     if mode ≠ "p" ∧ fab = 0 then (st, "BAD e2e case session needs a fabric") else
     if bad then (if out.startsWith "panic" && !sorted then (st, "ok") else (st, s!"ORA {out}")) else
     if kind = "v" then
-      let model := s!"- # - # {joinOr " | " ((reportEvents ctx st.node true paths queue).map fmtEvOut)}"
-      let specL := expectedEvents ctx st.node true paths queue
+      -- for an event read the flag field carries the request's `isFabricFiltered`: `u` = false
+      let ff := flag ≠ "u"
+      let model := s!"- # - # {joinOr " | " ((reportEvents ctx st.node ff paths queue).map fmtEvOut)}"
+      let specL := expectedEvents ctx st.node ff paths queue
       let spec := s!"- # - # {joinOr " | " (specL.map fmtEvOut)}"
       if inScope && spec ≠ out then (st, s!"ORA spec=[{spec}]")
       else if model = out then (st, "ok") else (st, s!"DIS {model}")
